@@ -133,13 +133,7 @@ Lemma ml_forward_traced (x y0 y1 y2 : nat -> K) :
   gen_ml_fwd3_3 (vtab 3 x) (vtab 3 y0) (vtab 3 y1) (vtab 3 y2) = ml_forward (vtab 3 x) [vtab 3 y0; vtab 3 y1; vtab 3 y2].
 Proof. repeat split; fcbv; list_eq; ring. Qed.
 
-(* linear branch: the traced two-member tensor() is the SUM of the homogeneous matrices *)
-Lemma ml2_is_matrix_sum (fa fb : form) (a b : nat -> nat -> K) :
-  gen_ml2 D fa fb (tab D (fcols D fa) a) (tab D (fcols D fb) b)
-  = madd (gen_ashom D fa (tab D (fcols D fa) a)) (gen_ashom D fb (tab D (fcols D fb) b)).
-Proof. destruct HD as [-> | ->]; destruct fa, fb; fcbv; list_eq; ring. Qed.
-
-(* hence, for ANY number of linear members, tensor() maps x to the sum of the member IMAGES T_i(x) *)
+(* ------------------------------------------------------------------ linear branch *)
 Lemma ml_step_apply (acc : list (list K)) (m : member (K:=K)) (X : list K) :
   mshape D (S D) acc -> m_ok D m -> length X = D ->
   happly D (ml_step D acc m) X = vadd (happly D acc X) (m_apply D m X) /\ mshape D (S D) (ml_step D acc m).
@@ -153,37 +147,107 @@ Qed.
 Lemma ml_fold_apply (r : list (member (K:=K))) : forall (acc : list (list K)) (X : list K),
   mshape D (S D) acc -> Forall (m_ok D) r -> length X = D ->
   happly D (fold_left (ml_step D) r acc) X
-  = fold_left (fun v m => vadd v (m_apply D m X)) r (happly D acc X).
+  = fold_left (fun v m => vadd v (m_apply D m X)) r (happly D acc X)
+  /\ mshape D (S D) (fold_left (ml_step D) r acc).
 Proof.
-  induction r as [|m r IH]; intros acc X Ha Hr HX; [reflexivity|].
+  induction r as [|m r IH]; intros acc X Ha Hr HX; [split; [reflexivity | exact Ha]|].
   apply Forall_cons_iff in Hr as [Hm Hr']. cbn [fold_left].
-  destruct (ml_step_apply acc m X Ha Hm HX) as [E Hok]. rewrite IH by auto. rewrite E. reflexivity.
+  destruct (ml_step_apply acc m X Ha Hm HX) as [E Hok].
+  destruct (IH (ml_step D acc m) X Hok Hr' HX) as [E2 Hok2]. rewrite E2, E. split; [reflexivity | exact Hok2].
 Qed.
 
-Theorem multilevel_linear_is_sum_of_images (m : member (K:=K)) (r : list member) (X : list K) :
-  m_ok D m -> Forall (m_ok D) r -> length X = D ->
-  happly D (ml_tensor D (m :: r)) X = fold_left (fun v m' => vadd v (m_apply D m' X)) r (m_apply D m X).
+(* subtracting c identities from a homogeneous matrix subtracts c x from the image *)
+Lemma msub_identities_apply (Sm : list (list K)) (c : K) (X : list K) :
+  mshape D (S D) Sm -> length X = D ->
+  happly D (msub Sm (mscale c (hid D))) X = vsub (happly D Sm X) (vscale c X).
 Proof.
-  intros Hm Hr HX. unfold ml_tensor.
-  destruct m as [f A]. unfold m_ok in Hm. cbn [fst snd] in *.
-  assert (Hsh : mshape D (S D) (gen_matrix D f A) /\ happly D (gen_matrix D f A) X = m_apply D (f, A) X).
-  { rewrite (tab_all K _ _ A Hm), (vtab_all X HX). unfold m_apply. cbn [fst snd].
-    destruct HD as [-> | ->]; destruct f; (split; [split; [reflexivity | repeat constructor] | fcbv; list_eq; ring]). }
-  destruct Hsh as [Hsh E]. rewrite ml_fold_apply by auto. rewrite E. reflexivity.
+  intros Hs HX. rewrite (tab_all K _ _ Sm Hs), (vtab_all X HX).
+  destruct HD as [-> | ->]; fcbv; list_eq; ring.
 Qed.
 
-(* a multi-level composite of ONE linear member, and the empty one, do add displacements *)
-Theorem multilevel_sum_linear_le1 (ms : list (member (K:=K))) (X : list K) :
-  (length ms <= 1)%nat -> Forall (m_ok D) ms -> length X = D ->
+Lemma vsum_list_length (l : list (list K)) : Forall (fun v => length v = D) l -> length (vsum_list D l) = D.
+Proof.
+  induction l as [|v l IH]; intro H; [apply repeat_length|].
+  apply Forall_cons_iff in H as [Hv Hl]. cbn [vsum_list]. rewrite vadd_length; [exact Hv | rewrite IH; auto].
+Qed.
+
+Lemma of_Z_succ (n : nat) : @of_Z K (Z.of_nat (S n)) = of_Z (Z.of_nat n) + 1.
+Proof. rewrite Nat2Z.inj_succ, <- Z.add_1_r. rewrite (of_Z_add K Kf). cbn [of_Z of_pos]. reflexivity. Qed.
+
+(* sum of the images minus the surplus copies of x = sum of the displacements (accumulator form) *)
+Lemma images_minus_copies (X : list K) (HX : length X = D) (r : list (member (K:=K))) : forall (v : list K) (c : K),
+  Forall (m_ok D) r -> length v = D ->
+  vsub (fold_left (fun v m => vadd v (m_apply D m X)) r v) (vscale (c + of_Z (Z.of_nat (length r))) X)
+  = vadd (vsub v (vscale c X)) (vsum_list D (map (fun m => vsub (m_apply D m X) X) r)).
+Proof.
+  induction r as [|m r IH]; intros v c Hr Hv.
+  - cbn [fold_left map vsum_list length Z.of_nat of_Z].
+    destruct HD as [-> | ->]; [len2 X HX; len2 v Hv | len3 X HX; len3 v Hv]; fcbv; list_eq; ring.
+  - apply Forall_cons_iff in Hr as [Hm Hr']. cbn [fold_left map vsum_list length].
+    pose proof (m_apply_length m X Hm HX) as LY. remember (m_apply D m X) as Y eqn:EY.
+    rewrite of_Z_succ. replace (c + (of_Z (Z.of_nat (length r)) + 1)) with ((c + 1) + of_Z (Z.of_nat (length r))) by ring.
+    rewrite (IH (vadd v Y) (c + 1) Hr') by (rewrite vadd_length; congruence).
+    assert (LR : length (vsum_list D (map (fun m0 => vsub (m_apply D m0 X) X) r)) = D).
+    { apply vsum_list_length. apply Forall_forall. intros w Hw. apply in_map_iff in Hw as (m0 & <- & Hin).
+      rewrite vsub_length; [apply m_apply_length; auto; rewrite Forall_forall in Hr'; auto |].
+      rewrite m_apply_length; auto. rewrite Forall_forall in Hr'; auto. }
+    remember (vsum_list D (map (fun m0 => vsub (m_apply D m0 X) X) r)) as R eqn:ER. clear ER EY IH.
+    destruct HD as [-> | ->]; [len2 X HX; len2 v Hv; len2 Y LY; len2 R LR | len3 X HX; len3 v Hv; len3 Y LY; len3 R LR];
+      fcbv; list_eq; ring.
+Qed.
+
+(* MultiLevelTransform of ANY number of linear members: tensor() maps x to x + sum_i (T_i(x) - x) *)
+Theorem multilevel_sum_linear (ms : list (member (K:=K))) (X : list K) :
+  Forall (m_ok D) ms -> length X = D ->
   happly D (ml_tensor D ms) X = ml_spec_linear D ms X.
 Proof.
-  intros Hl Hms HX. destruct ms as [|m [|m' r]]; [| |cbn in Hl; lia].
+  intros Hms HX. destruct ms as [|m r].
   - unfold ml_tensor, ml_spec_linear, ml_spec. cbn [map vsum_list]. rewrite (vtab_all X HX).
     destruct HD as [-> | ->]; fcbv; list_eq; ring.
-  - apply Forall_cons_iff in Hms as [Hm _].
-    rewrite multilevel_linear_is_sum_of_images by auto. cbn [fold_left].
-    unfold ml_spec_linear, ml_spec. cbn [map vsum_list].
-    pose proof (m_apply_length m X Hm HX) as L. remember (m_apply D m X) as Y.
-    clear HeqY. destruct HD as [-> | ->]; [len2 X HX; len2 Y L | len3 X HX; len3 Y L]; fcbv; list_eq; ring.
+  - apply Forall_cons_iff in Hms as [Hm Hr].
+    destruct m as [f A]. pose proof Hm as Hm'. unfold m_ok in Hm'. cbn [fst snd] in Hm'.
+    assert (Hsh : mshape D (S D) (gen_matrix D f A) /\ happly D (gen_matrix D f A) X = m_apply D (f, A) X).
+    { rewrite (tab_all K _ _ A Hm'), (vtab_all X HX). unfold m_apply. cbn [fst snd].
+      destruct HD as [-> | ->]; destruct f; (split; [split; [reflexivity | repeat constructor] | fcbv; list_eq; ring]). }
+    destruct Hsh as [Hsh E].
+    pose proof (m_apply_length (f, A) X Hm HX) as LY.
+    assert (G : vsub (fold_left (fun v m' => vadd v (m_apply D m' X)) r (m_apply D (f, A) X)) (vscale (of_Z (Z.of_nat (length r))) X)
+                = ml_spec_linear D ((f, A) :: r) X).
+    { pose proof (images_minus_copies X HX r (m_apply D (f, A) X) 0 Hr LY) as H.
+      replace (0 + of_Z (Z.of_nat (length r))) with (@of_Z K (Z.of_nat (length r))) in H by ring.
+      rewrite H. unfold ml_spec_linear, ml_spec. cbn [map vsum_list]. rewrite HX.
+      assert (LR : length (vsum_list D (map (fun y => vsub y X) (map (fun m0 => m_apply D m0 X) r))) = D).
+      { apply vsum_list_length. apply Forall_forall. intros w Hw. apply in_map_iff in Hw as (y & <- & Hy).
+        apply in_map_iff in Hy as (m0 & <- & Hin). rewrite vsub_length; rewrite m_apply_length; auto; rewrite Forall_forall in Hr; auto. }
+      rewrite map_map in *. remember (vsum_list D (map (fun m0 => vsub (m_apply D m0 X) X) r)) as R eqn:ER.
+      remember (m_apply D (f, A) X) as Y eqn:EY. clear ER EY H.
+      destruct HD as [-> | ->]; [len2 X HX; len2 Y LY; len2 R LR | len3 X HX; len3 Y LY; len3 R LR]; fcbv; list_eq; ring. }
+    destruct r as [|m2 r2].
+    + etransitivity; [|exact G]. unfold ml_tensor. cbn [fst snd]. rewrite E. cbn [fold_left length Z.of_nat of_Z].
+      clear G E. remember (m_apply D (f, A) X) as Y eqn:EY. clear EY.
+      destruct HD as [-> | ->]; [len2 X HX; len2 Y LY | len3 X HX; len3 Y LY]; fcbv; list_eq; ring.
+    + unfold ml_tensor. cbn [fst snd].
+      destruct (ml_fold_apply (m2 :: r2) (gen_matrix D f A) X Hsh Hr HX) as [E2 Hok2].
+      rewrite msub_identities_apply by auto. rewrite E2, E. exact G.
 Qed.
+
+(* the traced tensor() of two members (all 9 form pairs) and of three homogeneous members is the model *)
+Lemma ml2_is_model (fa fb : form) (a b : nat -> nat -> K) :
+  gen_ml2 D fa fb (tab D (fcols D fa) a) (tab D (fcols D fb) b)
+  = ml_tensor D [(fa, tab D (fcols D fa) a); (fb, tab D (fcols D fb) b)].
+Proof. destruct HD as [-> | ->]; destruct fa, fb; fcbv; list_eq; ring. Qed.
 End Composite.
+
+Section Traced3.
+Variable K : fld.
+Hypothesis Kf : is_field K.
+Add Field KF_C06Comp3 : Kf.
+Lemma ml3_is_model (a b c : nat -> nat -> K) :
+  gen_ml3_HHH_2 (tab 2 3 a) (tab 2 3 b) (tab 2 3 c) = ml_tensor 2 [(FH, tab 2 3 a); (FH, tab 2 3 b); (FH, tab 2 3 c)] /\
+  gen_ml3_HHH_3 (tab 3 4 a) (tab 3 4 b) (tab 3 4 c) = ml_tensor 3 [(FH, tab 3 4 a); (FH, tab 3 4 b); (FH, tab 3 4 c)].
+Proof. split; fcbv; list_eq; ring. Qed.
+
+(* evaluating the composite leaves every member's tensor untouched (generated from the trace) *)
+Lemma ml_members_unchanged (fa : form) : gen_ml_overwrites_first fa = false.
+Proof. destruct fa; reflexivity. Qed.
+End Traced3.
